@@ -51,6 +51,10 @@ def dispatch_scenario(rng: random.Random, *, family=None, with_invalid=True, sto
                 lines.append(f"disp {j} {p} {m}")
                 lines.append("snap")
                 n_invalid += 1
+        if peeks and rng.random() < 0.05:
+            # the library's instance transformations are applied to the instance under test (they return NEW instances; results dropped)
+            lines.append("xform")
+            lines.append("snap")
         if peeks and rng.random() < 0.12:
             # a look-ahead: some request (valid, or not) is tried on a deep copy of the dispatcher; the original goes on undisturbed
             pj, pp, pm = gen.gen_valid_request(rng, tr, "uniform")
